@@ -90,7 +90,7 @@ class DifferenceFunctions(object):
     @staticmethod
     def _complex_even_higher(f, f_x, x, h):
         i_h = h * _SQRT_J
-        return 12.0 * (f(x + i_h) + f(x - i_h) - 2 * f_x).real
+        return 12.0 * (f(x + i_h) + f(x - i_h) - 2.0 * f_x).real
 
     @staticmethod
     def _multicomplex(f, f_x, x, h):
